@@ -6707,6 +6707,10 @@ fn eval_expr(
                 let mut items: rpds::HashTrieMap<String, Value> = rpds::HashTrieMap::new();
                 let mut value_type = Type::no_value();
 
+                // The keys and values popped so far, most recent first,
+                // so a failure can put them all back.
+                let mut popped_values: Vec<Value> = vec![];
+
                 for kv in item_exprs {
                     // The evaluated value of key-value pair.
                     let value_value = env
@@ -6721,11 +6725,13 @@ fn eval_expr(
                         .pop_value()
                         .expect("Value stack should have sufficient items for the dict literal");
 
+                    popped_values.insert(0, value_value.clone());
+                    popped_values.insert(0, key_value.clone());
+
                     let key_str = check_string(
                         &key_value,
                         &kv.key.position,
-                        // TODO: set saved_values properly here.
-                        vec![],
+                        popped_values.clone(),
                         env,
                     )?;
 
